@@ -859,5 +859,12 @@ func TestReplay(t *testing.T) {
 			}
 			return judgeJSON(c)
 		},
+		"history": func(raw json.RawMessage) error {
+			var c histCase
+			if err := vt.Decode(raw, &c); err != nil {
+				return err
+			}
+			return judgeHistory(c)
+		},
 	})
 }
